@@ -9,7 +9,7 @@ use std::ops::{Div, Mul};
 /// you divide it by a length you get a valid css length.
 #[derive(Clone, PartialEq, Eq)]
 pub struct UnitSet {
-    units: Vec<(Unit, i8)>,
+    units: Vec<(Unit, i32)>,
 }
 
 impl UnitSet {
@@ -44,14 +44,15 @@ impl UnitSet {
             || self.dimension() == other.dimension()
     }
 
-    pub(crate) fn dimension(&self) -> Vec<(Dimension, i8)> {
+    pub(crate) fn dimension(&self) -> Vec<(Dimension, i32)> {
         use std::collections::BTreeMap;
         self.units
             .iter()
             .map(|(unit, p)| (unit.dimension(), p))
             .filter(|(dim, _p)| *dim != Dimension::None)
             .fold(BTreeMap::new(), |mut map, (dim, power)| {
-                *map.entry(dim).or_insert(0) += *power;
+                let sum = map.entry(dim).or_insert(0i32);
+                *sum = sum.saturating_add(*power);
                 map
             })
             .into_iter()
@@ -67,7 +68,8 @@ impl UnitSet {
             .map(|(unit, p)| (CssDimension::from(unit.dimension()), p))
             .filter(|(dim, _p)| *dim != CssDimension::None)
             .fold(BTreeMap::new(), |mut map, (dim, power)| {
-                *map.entry(dim).or_insert(0) += *power;
+                let sum = map.entry(dim).or_insert(0i32);
+                *sum = sum.saturating_add(*power);
                 map
             })
             .into_iter()
@@ -126,13 +128,13 @@ impl UnitSet {
                     if *bp != 0
                         && let Some(f) = bu.scale_to(au)
                     {
-                        if ap.abs() > bp.abs() {
+                        if ap.unsigned_abs() > bp.unsigned_abs() {
                             factor *= f.powi((*bp).into());
-                            *ap += *bp;
+                            *ap = ap.saturating_add(*bp);
                             *bp = 0;
                         } else {
                             factor /= f.powi((*ap).into());
-                            *bp += *ap;
+                            *bp = bp.saturating_add(*ap);
                             *ap = 0;
                         }
                     }
@@ -151,11 +153,11 @@ impl Div for &UnitSet {
         'rhs: for (ru, rp) in &rhs.units {
             for (lu, lp) in &mut result.units {
                 if lu == ru {
-                    *lp -= rp;
+                    *lp = lp.saturating_sub(*rp);
                     continue 'rhs;
                 }
             }
-            result.units.push((ru.clone(), -rp));
+            result.units.push((ru.clone(), rp.saturating_neg()));
         }
         result.units.retain(|(_u, p)| *p != 0);
         result
@@ -168,7 +170,7 @@ impl Mul for &UnitSet {
         'rhs: for (ru, rp) in &rhs.units {
             for (lu, lp) in &mut result.units {
                 if lu == ru {
-                    *lp += rp;
+                    *lp = lp.saturating_add(*rp);
                     continue 'rhs;
                 }
             }
@@ -202,7 +204,7 @@ impl Display for UnitSet {
             write_one(out, u, *p)?;
             for (u, p) in pos {
                 out.write_str(if short { "*" } else { " * 1" })?;
-                write_one(out, u, p.abs())?;
+                write_one(out, u, p.saturating_abs())?;
             }
             if let Some((u, p)) = neg.next() {
                 out.write_str(if short { "/" } else { " / 1" })?;
@@ -210,10 +212,10 @@ impl Display for UnitSet {
                 if paren {
                     out.write_char('(')?;
                 }
-                write_one(out, u, p.abs())?;
+                write_one(out, u, p.saturating_abs())?;
                 for (u, p) in neg {
                     out.write_str(if short { "*" } else { " / 1" })?;
-                    write_one(out, u, p.abs())?;
+                    write_one(out, u, p.saturating_abs())?;
                 }
                 if paren {
                     out.write_char(')')?;
@@ -227,12 +229,12 @@ impl Display for UnitSet {
                 }
                 (Some((u, p)), Some((nu, np))) => {
                     out.write_str("(")?;
-                    write_one(out, u, p.abs())?;
+                    write_one(out, u, p.saturating_abs())?;
                     out.write_str("*")?;
-                    write_one(out, nu, np.abs())?;
+                    write_one(out, nu, np.saturating_abs())?;
                     for (u, p) in neg {
                         out.write_str("*")?;
-                        write_one(out, u, p.abs())?;
+                        write_one(out, u, p.saturating_abs())?;
                     }
                     out.write_str(")^-1")?;
                 }
@@ -240,14 +242,14 @@ impl Display for UnitSet {
         } else {
             for (u, p) in neg {
                 out.write_str(" / 1")?;
-                write_one(out, u, p.abs())?;
+                write_one(out, u, p.saturating_abs())?;
             }
         }
         Ok(())
     }
 }
 
-fn write_one(out: &mut fmt::Formatter, u: &Unit, p: i8) -> fmt::Result {
+fn write_one(out: &mut fmt::Formatter, u: &Unit, p: i32) -> fmt::Result {
     u.fmt(out)?;
     if (0..=3).contains(&p) {
         for _ in 1..p {
@@ -271,7 +273,7 @@ impl fmt::Debug for UnitSet {
 /// May be e.g. lenght, or something complex like length^17*angle*time^-3.
 #[derive(Debug, Default, PartialEq, Eq)]
 pub struct CssDimensionSet {
-    dim: Vec<(CssDimension, i8)>,
+    dim: Vec<(CssDimension, i32)>,
 }
 impl CssDimensionSet {
     /// Return true for the empty dimension, i.e. the dimension of a unitless number.
